@@ -30,6 +30,7 @@ type Prog struct {
 	Funcs []*ssa.Function
 	// callers index: static callee -> call sites
 	cg *CallGraph
+	bfCallbacks map[*ssa.Function][]ssa.CallInstruction
 }
 
 func repoRoot() string {
